@@ -699,9 +699,49 @@ func CollapseWS(s string) string {
 
 // Addr is one mailbox.
 type Addr struct {
-	Name   string // decoded display name
+	Name   string // decoded display name (octets of encoded-words as they are)
 	Local  string // unquoted local part
 	Domain string
+	// NameByLabel is the display name as a reader sees it that honours the charset label of every
+	// encoded-word (utf-8 as is, us-ascii and iso-8859-1 transcoded, bytes of other charsets that
+	// are not ASCII become U+FFFD); Labels are the charset labels met.
+	NameByLabel string
+	Labels      []string
+}
+
+// TranscodeByLabel turns the octets of an encoded-word into text according to its charset label.
+func TranscodeByLabel(label string, raw string) string {
+	switch strings.ToLower(label) {
+	case "utf-8", "utf8":
+		return raw
+	case "iso-8859-1", "latin1", "iso_8859-1":
+		var sb strings.Builder
+		for i := 0; i < len(raw); i++ {
+			sb.WriteRune(rune(raw[i]))
+		}
+		return sb.String()
+	}
+	var sb strings.Builder
+	for i := 0; i < len(raw); i++ {
+		if raw[i] < 0x80 {
+			sb.WriteByte(raw[i])
+		} else {
+			sb.WriteRune(0xFFFD)
+		}
+	}
+	return sb.String()
+}
+
+// ewLabel returns the charset label of a token that is one encoded-word ("" otherwise).
+func ewLabel(w string) string {
+	if !strings.HasPrefix(w, "=?") || !strings.HasSuffix(w, "?=") {
+		return ""
+	}
+	parts := strings.Split(w[2:len(w)-2], "?")
+	if len(parts) != 3 {
+		return ""
+	}
+	return strings.ToLower(parts[0])
 }
 
 func (a Addr) Spec() string { return a.Local + "@" + a.Domain }
@@ -814,7 +854,9 @@ func (p *addrParser) quoted() (string, error) {
 func (p *addrParser) mailbox() (Addr, error) {
 	// collect words until '<' or '@'
 	var words []string // decoded pieces
-	var kinds []byte   // 'a' atom, 'q' quoted, 'e' encoded
+	var byLabel []string
+	var labels []string
+	var kinds []byte // 'a' atom, 'q' quoted, 'e' encoded
 	var lastAtomRaw string
 	for {
 		p.skipCFWS()
@@ -834,16 +876,18 @@ func (p *addrParser) mailbox() (Addr, error) {
 			}
 			p.i++
 			// build name
-			var sb strings.Builder
+			var sb, sl strings.Builder
 			prevEW := false
 			for k, w := range words {
 				if k > 0 && !(prevEW && kinds[k] == 'e') {
 					sb.WriteByte(' ')
+					sl.WriteByte(' ')
 				}
 				sb.WriteString(w)
+				sl.WriteString(byLabel[k])
 				prevEW = kinds[k] == 'e'
 			}
-			return Addr{Name: sb.String(), Local: loc, Domain: dom}, nil
+			return Addr{Name: sb.String(), Local: loc, Domain: dom, NameByLabel: sl.String(), Labels: labels}, nil
 		}
 		if c == '"' {
 			st := p.i
@@ -858,6 +902,7 @@ func (p *addrParser) mailbox() (Addr, error) {
 				return Addr{Local: loc, Domain: dom}, err
 			}
 			words = append(words, q)
+			byLabel = append(byLabel, q)
 			kinds = append(kinds, 'q')
 			continue
 		}
@@ -875,9 +920,12 @@ func (p *addrParser) mailbox() (Addr, error) {
 			lastAtomRaw = w
 			if d, ok, _ := decodeOneOrMoreEW(w); ok {
 				words = append(words, d)
+				byLabel = append(byLabel, TranscodeByLabel(ewLabel(w), d))
+				labels = append(labels, ewLabel(w))
 				kinds = append(kinds, 'e')
 			} else {
 				words = append(words, w)
+				byLabel = append(byLabel, w)
 				kinds = append(kinds, 'a')
 			}
 			continue
